@@ -296,6 +296,26 @@ func (c *RC) guardRule(r *RuleResult, sites []*Site, roots []*FuncInfo, g func(s
 	if cfg != nil {
 		cfg(d)
 	}
+	// engine canary: a requirement that no path establishes must be refuted at the first site, otherwise the
+	// engine is proving everything (empty snapshots, lost call graph) and the rule would pass vacuously
+	if len(sites) > 0 {
+		cd := c.A.newDemand(roots)
+		if cfg != nil {
+			cfg(cd)
+		}
+		canary := bl(fld("ctx.__canary_never_established", false))
+		s0 := sites[0]
+		if f := cd.ProveAt(s0, func(sn *Snap) *Formula {
+			if g0 := g(s0, sn); g0 != nil {
+				return fAnd(g0, canary)
+			}
+			return canary
+		}); f == nil {
+			r.fail("engine-canary/"+r.Rule, c.Prog.Pos(s0.Node), "the engine proved a requirement that nothing establishes: the rule's verdicts are not trustworthy")
+		} else {
+			r.note("canary refuted at " + c.Prog.Pos(s0.Node))
+		}
+	}
 	for _, s := range sites {
 		r.Sites++
 		s := s
